@@ -1,7 +1,7 @@
 (* TieC19.v — the skeleton of Session.client regenerated from /repo/bus/session/session.go
    (gen/Facts.v) is the program the machine of Session.v runs. *)
 From Coq Require Import List String.
-From QV Require Import Session Facts.
+From QV Require Import Session SessionLife Facts.
 Import ListNotations.
 Local Open Scope string_scope.
 
@@ -11,10 +11,10 @@ Lemma tie_session_client :
   f_session_client = render (prog cfg_pinned) \/ f_session_client = render (prog cfg_clean).
 Proof. (left; reflexivity) || (right; reflexivity). Qed.
 
-(* the only other code that touches the pool: the closer registered on the pooled endpoint
-   (Lock; delete; Unlock — runs when a pooled connection is lost, which the machine does not
-   include) and Terminate (Lock; range; Unlock); NewAuthSession only allocates the map *)
-Lemma tie_session_closer : f_session_closer = ["Lock"; "delete"; "Unlock"].
+(* the only other code that touches the pool: the closer registered on the pooled endpoint (runs
+   when a pooled connection is lost: the program `closer_prog` of the LLose event of
+   SessionLife.v) and Terminate (Lock; range; Unlock); NewAuthSession only allocates the map *)
+Lemma tie_session_closer : f_session_closer = render_closer closer_prog.
 Proof. reflexivity. Qed.
 Lemma tie_session_pool_users : f_session_pool_users = ["NewAuthSession"; "Terminate"; "client"].
 Proof. reflexivity. Qed.
